@@ -125,7 +125,9 @@ CLAIMED["C05"] = dict(
         "Software binary32 (Model/SoftFloat.lean: IEEE-754 binary32 in core Lean, tied bit-for-bit to C float by the f32 ops, 1.2M operand pairs, and to the whole program by "
         "kalign_sys_soft): Props/SoftFloat (laws, sentinel absorption, boundedness), C07Soft_seqseq_mon and monHyp_bounded (the Hirschberg meetup contract holds for all "
         "reachable operands with nsip <= 2^17, len_a+len_b < 2^19, no hypothesis about values), kalignRunSoft2_never_faults / kalignRunSoft2_errors: with DP scores and the < 100-sequence guide tree on SoftF32 (ops kalign_sys_soft2, dist_matrix_soft, "
-        "upgma_soft, tree_soft), for every input with numseq <= 2^17 and numseq*maxlen < 2^19 the composed model never reaches a fault value -- no hypothesis about values.",
+        "upgma_soft, tree_soft), for every input with numseq <= 2^17 and numseq*maxlen < 2^19 the composed model never reaches a fault value -- no hypothesis about values. "
+        "Whole program (Props/C05WholeProgram, op kalign_file_soft2): kalignFileSoft2_never_faults / _errors / _ok_shape -- for any input files (arbitrary bytes), type, penalties "
+        "and format word the files-to-file model never faults (size bound on what the readers return), its only failures are the documented rejections, every output is well-formed.",
    note="PARTIAL by nature: heap behaviour of libc/libgomp, stack depth of recursions, OOM paths are not modelled; the theorem part covers readers/tables/path expansion only.",
    technique="Lean 4 proofs about fault-aware models + sanitizer-instrumented differential/fuzz search",
    ref="4 C05")
